@@ -205,6 +205,21 @@ C04_RejectedNoTrace == Step =>
 C05_UserUsage == UserUsageOK(St(l))
 C05_GroupUsage == GroupUsageOK(St(l))
 C05_NoGhostUser == NoGhostUser(St(l))
+\* Enforcement at every scheduler decision: the limits in force are read from the trackers' own view (REST usage DAO:
+\* maxResources / maxApplications per user or group and queue); that the trackers carry exactly the limits of the latest
+\* configuration is decided by the lock-step check of the manager (spec/UGM.tla).
+LimitOK(trk, q, res) == (q \in DOMAIN trk /\ trk[q].hasMax /\ DOMAIN trk[q].max # {}) =>
+      \A t \in DOMAIN trk[q].max : Get(trk[q].usage, t) + Get(res, t) <= trk[q].max[t]
+\* admission = the first allocation of an application that is still Accepted; an application that comes back from
+\* Completing is Running again without being admitted anew (same rule as the queue gate, C11)
+AppsOK(trk, q, a) == (q \in DOMAIN trk /\ trk[q].maxApps > 0 /\ a \notin ToSet(trk[q].apps) /\ Pre.apps[a].state = "Accepted") => Len(trk[q].apps) + 1 <= trk[q].maxApps
+C05_Step == \A m \in SchedAllocs : m.app \in AppsOf(Pre) =>
+      LET u == Pre.apps[m.app].user
+          path == Ancestors(Pre, Pre.apps[m.app].queue)
+          res == PreAsk(Pre, m).res
+          grp == {g \in DOMAIN Post.groups : m.app \in ToSet(Post.groups[g].apps)} IN
+      /\ (u \in DOMAIN Pre.users => \A q \in path : LimitOK(Pre.users[u], q, res) /\ AppsOK(Pre.users[u], q, m.app))
+      /\ \A g \in grp : g \in DOMAIN Pre.groups => \A q \in path : LimitOK(Pre.groups[g].q, q, res) /\ AppsOK(Pre.groups[g].q, q, m.app)
 C05_TrackerApps == TrackerApps(St(l))
 
 (* ====================================================================== C06 *)
@@ -490,14 +505,26 @@ KF_UpdateReleasedAlloc == Step /\ E.op \in {"bad", "updateAsk"} /\ "app" \in DOM
       /\ E.app \in AppsOf(Pre) /\ E.key \in DOMAIN Pre.apps[E.app].asks
       /\ Pre.apps[E.app].asks[E.key].allocated /\ Pre.apps[E.app].asks[E.key].rel = "" /\ E.key \notin DOMAIN Pre.apps[E.app].allocs
 \* an accepted reload that changes the limit configuration while some application is tracked under a group
-KF_ReloadWithGroupTracking == IsReload /\ E.ok /\ \E g \in DOMAIN Pre.groups : Pre.groups[g].apps # <<>>
-\* gate replay: a node is removed (and possibly registered again) while a scheduling cycle is parked between node
-\* selection and the end of partition.allocate
+KF_ReloadWithGroupTracking == IsReload /\ E.ok /\ (\/ \E a \in AppsOf(Pre) : DOMAIN Pre.apps[a].allocs # {}
+                                                  \/ \E g \in DOMAIN Pre.groups : Pre.groups[g].apps # <<>>)
+\* the last REAL allocation of a gang application is released while placeholders are still allocated: the application is
+\* taken off the tracker lists (removeApp) although it still holds the placeholder resources
+KF_LastRealWithPlaceholders == Step /\ \E a \in AppsOf(Pre) :
+      /\ ~RZero(Pre.apps[a].phAlloc) /\ ~RZero(Pre.apps[a].alloc)
+      /\ (a \notin AppsOf(Post) \/ RZero(Post.apps[a].alloc))
+\* gate replay: a node or an application is removed (a node possibly registered again), or the ask being allocated is
+\* released, while a scheduling cycle is parked between node selection and the end of partition.allocate
 KF_RemovalDuringCycle == Step /\ E.op = "gated" /\ E.parked /\ E.point \in {"tryNode.beforeNodeAdd", "partition.allocate.entry"}
-                             /\ \E i \in 1..Len(E.during) : E.during[i] \in {"removeNode", "removeApp", "release"}
+                         /\ \E i \in 1..Len(E.during) : E.during[i] \in {"removeNode", "removeApp", "release"}
+\* a group tracker is dropped from the manager (it became empty) while a live application of that group is still around:
+\* the user tracker keeps its link to the dropped object, later usage of that application is not tracked for the group
+KF_GroupTrackerDropped == Step /\ \E g \in DOMAIN Pre.groups \ DOMAIN Post.groups :
+      \E a \in AppsOf(Post) : \E i \in 1..Len(Post.apps[a].groups) : Post.apps[a].groups[i] = g \/ g = "*"
 KFAll == /\ KFHit("KF-C01-REQNODE-UNSCHED", KF_ReqNodeUnsched)
+         /\ KFHit("KF-C05-GROUP-TRACKER-DROPPED", KF_GroupTrackerDropped)
          /\ KFHit("KF-C14-REMOVAL-DURING-CYCLE", KF_RemovalDuringCycle)
          /\ KFHit("KF-C05-RELOAD-GROUP-TRACKING", KF_ReloadWithGroupTracking)
+         /\ KFHit("KF-C05-UNTRACKED-WITH-PLACEHOLDERS", KF_LastRealWithPlaceholders)
          /\ KFHit("KF-C13-UPDATE-RELEASED-ALLOC", KF_UpdateReleasedAlloc)
          /\ KFHit("KF-C03-UPDATE-LINKED-REAL", KF_UpdateLinkedReal)
          /\ KFHit("KF-C05-TRACKER-APP-GHOST", KF_TrackerAppGhost)
@@ -515,7 +542,7 @@ All == /\ KFAll
        /\ Chk("C03_AppLedger", C03_AppLedger) /\ Chk("C03_QueueLedger", C03_QueueLedger) /\ Chk("C03_RootVsNodes", C03_RootVsNodes) /\ Chk("C03_NoOrphans", C03_NoOrphans)
        /\ Chk("C03_Counters", C03_Counters) /\ Chk("C03_Preempting", C03_Preempting) /\ Chk("C03_Drained", C03_Drained)
        /\ Chk("C04_Legal", C04_Legal) /\ Chk("C04_RejectedNoTrace", C04_RejectedNoTrace)
-       /\ Chk("C05_UserUsage", C05_UserUsage) /\ Chk("C05_GroupUsage", C05_GroupUsage) /\ Chk("C05_NoGhostUser", C05_NoGhostUser) /\ Chk("C05_TrackerApps", C05_TrackerApps)
+       /\ Chk("C05_UserUsage", C05_UserUsage) /\ Chk("C05_GroupUsage", C05_GroupUsage) /\ Chk("C05_NoGhostUser", C05_NoGhostUser) /\ Chk("C05_Step", C05_Step) /\ Chk("C05_TrackerApps", C05_TrackerApps)
        /\ Chk("C06_Counts", C06_Counts) /\ Chk("C06_ReplaceStep", C06_ReplaceStep) /\ Chk("C06_ConfirmStep", C06_ConfirmStep) /\ Chk("C06_TimeoutStep", C06_TimeoutStep)
        /\ Chk("C07_Victims", C07_Victims) /\ Chk("C07_Asker", C07_Asker) /\ Chk("C07_QueueRules", C07_QueueRules)
        /\ Chk("C08_AskUnder", C08_AskUnder) /\ Chk("C08_VictimOver", C08_VictimOver) /\ Chk("C08_Covers", C08_Covers) /\ Chk("C08_NoEffectNoMark", C08_NoEffectNoMark)
